@@ -187,7 +187,69 @@ def normalize_scenarios():
         yield {"scenario": "normalize", "sparse": sparse, "policies": policies}
 
 
+# ---------------------------------------------------------------------------- convex linearisation
+def _convex_lin(m, mask, stored):
+    """Value and Jacobian of ConvexLinearApprox against the formulas of the contract; the operand's Jacobian array is not modified."""
+    from gemseo.core.mdo_functions.convex_linear_approx import ConvexLinearApprox
+    from gemseo.core.mdo_functions.mdo_function import MDOFunction
+
+    n = len(mask)
+    fv0, fj0 = _operand(7, m, n)
+    sg = np.array([1.0, -1.0, -1.0][:n])  # derivatives of both signs
+    fv, fj = (lambda x: fv0(x * sg)), (lambda x: fj0(x * sg) * sg)
+    store = {}
+
+    def jac(x):  # a function that keeps the Jacobian it returns (as MDOLinearFunction or a caching user function does)
+        j = fj(x)
+        if stored:
+            store["last"], store["copy"] = j, j.copy()
+        return j
+
+    f = MDOFunction(fv, "f", jac=jac, dim=max(m, 1))
+    x0 = np.arange(1.0, n + 1.0)
+    x0[1] = -2.0
+    x = x0 + np.array([0.5, -0.25, 1.5][:n])
+    a = np.array(mask)
+    thr = 1e-9
+    try:
+        g = ConvexLinearApprox(x0, f, approx_indexes=a, sign_threshold=thr)
+        val, jg = np.atleast_1d(g.evaluate(x)), np.atleast_2d(g.jac(x))
+    except Exception as e:  # noqa: BLE001
+        return {"what": "exception", "exception": repr(e)}
+    merged = np.where(a, x0, x)
+    j0, jm = np.atleast_2d(fj(x0)), np.atleast_2d(fj(merged))
+    idx = np.nonzero(a)[0]
+    exp_v = np.atleast_1d(fv(merged)).astype(float).copy()
+    exp_j = jm.astype(float).copy()
+    for i in range(max(m, 1)):
+        for k, col in enumerate(idx):
+            c = j0[i, col]
+            d = c if c > thr else 0.0
+            r = -(c if -c > thr else 0.0) * x0[col] ** 2
+            step = x[col] - x0[col]
+            inv = 1.0 / step if abs(step) > thr else 0.0
+            exp_v[i] += d * step + r * inv
+            exp_j[i, col] = d - r * inv**2
+    if not np.allclose(val, exp_v, atol=TOL):
+        return {"what": "value differs from f(merged) + direct and reciprocal terms", "got": val.tolist(), "expected": exp_v.tolist()}
+    if jg.shape != exp_j.shape or not np.allclose(jg, exp_j, atol=TOL):
+        return {"what": "Jacobian is not the derivative of the evaluated expression (exact columns = Df(merged), approximated columns = D - R inv^2)",
+                "got": jg.tolist(), "expected": exp_j.tolist()}
+    if stored and not np.array_equal(store["last"], store["copy"]):
+        return {"what": "the array returned by the Jacobian of the approximated function was modified in place", "before": store["copy"].tolist(),
+                "after": store["last"].tolist()}
+    return None
+
+
+def convex_lin_scenarios(stored=(False, True)):
+    for st in stored:
+        for m, mask in itertools.product((2, 0), ([True, False, True], [False, True, False], [True, True, True], [False, False, False])):
+            yield {"scenario": "convex-linearisation", "m": m, "mask": mask, "stored": st}
+
+
 def run(w):
+    if w["scenario"] == "convex-linearisation":
+        return _convex_lin(w["m"], w["mask"], w["stored"])
     if w["scenario"] == "algebra":
         return _algebra(w["op"], w["m"], w["n"], w["second"])
     if w["scenario"] == "normalize":
@@ -208,6 +270,8 @@ def replay(ob, seed=0):
         scen = [w for w in algebra_scenarios() if w["op"] in ops]
         if "unexpected-ValueError" in name:
             scen = [w for w in scen if w["m"] != w["n"]] + scen
+    elif "ConvexLinearApprox" in func:
+        scen = list(convex_lin_scenarios((True,) if "not-modified" in name else (False, True)))
     elif func.endswith("MDOLinearFunction.normalize"):
         scen = [w for w in normalize_scenarios() if w["sparse"] == ("@sparse" in name)]
     else:
